@@ -187,6 +187,135 @@ CHECKS["C03"] = Spec(
          "the model evaluates recover(flush_cut s done) on the same cut; non-trivial = a cut inside a flush that appended >= 1 index record",
     extra=_crash_enum,
 )
+def _fc_check(ctx):
+    """C14: random and (thorough) exhaustive operation sequences on the real file cache, replayed on the model; protocol oracle on the real trace."""
+    import itertools
+    prop, tier, wd, rng = ctx["prop"], ctx["tier"], ctx["wd"], ctx["rng"]
+    seqs = []
+    cdir = os.path.join(C.VERIF, "corpus", prop)
+    if os.path.isdir(cdir):
+        for fn in sorted(os.listdir(cdir)):
+            if fn.endswith(".fcseq"):
+                seqs += [l.strip() for l in open(os.path.join(cdir, fn)) if l.strip() and not l.startswith("#")]
+    if ctx.get("replay") and ctx["replay"].endswith(".fcseq"):
+        seqs = [l.strip() for l in open(ctx["replay"]) if l.strip() and not l.startswith("#")]
+        nrand = 0
+    else:
+        nrand = 300 if tier == "quick" else 20000
+    def rnd():
+        ops = []
+        for _ in range(rng.randint(4, 45)):
+            r = rng.random()
+            if r < 0.42: ops.append("open %d" % rng.randint(0, 5))
+            elif r < 0.74: ops.append("closeref %d" % rng.randint(0, 9))
+            elif r < 0.83: ops.append("remove %d" % rng.randint(0, 5))
+            elif r < 0.87: ops.append("clear")
+            else: ops.append("setsize %d" % rng.choice((0, 0, 1, 1, 2, 3, 4, 5)))
+        return "%d ; %s" % (rng.choice((0, 0, 1, 2, 3, 5)), " ; ".join(ops))
+    seqs += [rnd() for _ in range(nrand)]
+    exhaustive = False
+    if tier == "thorough" and not ctx.get("replay"):
+        alphabet = ["open 0", "open 1", "closeref 0", "closeref 1", "remove 0", "clear", "setsize 0", "setsize 1", "setsize 2"]
+        for c0 in (0, 1, 2):
+            for L in range(1, 6):
+                for t in itertools.product(alphabet, repeat=L):
+                    seqs.append("%d ; %s" % (c0, " ; ".join(t)))
+        exhaustive = True
+    C.go_build(["fcdrive"])
+    parts = C.chunks(seqs, C.NCPU)
+    def one(i):
+        inp = os.path.join(wd, "fc%d.in" % i)
+        open(inp, "w").write("\n".join(parts[i]) + "\n")
+        p = C.sh([os.path.join(C.BIN, "fcdrive"), inp, os.path.join(wd, "fc%d.coq" % i), os.path.join(wd, "fc%d.jsonl" % i)], check=False, timeout=3000)
+        if p.returncode != 0:
+            raise C.CheckError("fcdrive failed: " + p.stdout[-2000:])
+        terms = []
+        txt = open(os.path.join(wd, "fc%d.coq" % i)).read()
+        for m in re.finditer(r"\(\*SEQ (\d+)\*\)\n(.*?)(?=\(\*SEQ |\Z)", txt, flags=re.S):
+            terms.append(((i, int(m.group(1))), m.group(2).strip()))
+        recs = [json.loads(l) for l in open(os.path.join(wd, "fc%d.jsonl" % i))]
+        return terms, recs
+    from concurrent.futures import ThreadPoolExecutor
+    with ThreadPoolExecutor(len(parts)) as ex:
+        outs = list(ex.map(one, range(len(parts))))
+    viol = []
+    terms = [t for o in outs for t in o[0]]
+    # protocol oracle on the real observations
+    nontriv = set()
+    nobs = 0
+    bad_oracle = []
+    for pi, (_, recs) in enumerate(outs):
+        for r in recs:
+            nobs += 1
+            seqtxt = parts[pi][r["seq"]]
+            r["lent"] = r.get("lent") or []
+            r["open"] = r.get("open") or []
+            what = None
+            if r.get("panic"):
+                what = "panic: " + r["panic"]
+            elif not set(r["lent"]) <= set(r["open"] or []):
+                what = "handle(s) %s lent to the user are closed after op %d (%s)" % (sorted(set(r["lent"]) - set(r["open"] or [])), r["i"], r["op"])
+            elif len(r["open"] or []) > r["cap"] + len(set(r["lent"])):
+                what = "%d descriptors open with capacity %d and %d distinct handles lent after op %d (%s)" % (len(r["open"]), r["cap"], len(set(r["lent"])), r["i"], r["op"])
+            elif r["out"] == "OErrClosed":
+                what = "Close of a held handle returned an error at op %d (%s)" % (r["i"], r["op"])
+            if what:
+                bad_oracle.append((seqtxt, what))
+            if r["i"] >= 3 and len(set(r["lent"])) >= 1 and r["op"].startswith(("SetSize", "Remove", "Clear")):
+                nontriv.add(seqtxt)
+    mism, coq_s = C.coq_replay(terms, wd, header="From STH Require Import FileCache FileCacheReplay.\nFrom Coq Require Import List. Import ListNotations.\n",
+                               ctor_list="(nat * list fcobs)", fn="fc_mismatches")
+    def fc_fails(seqtxt):
+        w2 = os.path.join(wd, "fcshrink"); os.makedirs(w2, exist_ok=True)
+        inp = os.path.join(w2, "s.in"); open(inp, "w").write(seqtxt + "\n")
+        C.sh([os.path.join(C.BIN, "fcdrive"), inp, os.path.join(w2, "s.coq"), os.path.join(w2, "s.jsonl")], check=False, timeout=600)
+        for l in open(os.path.join(w2, "s.jsonl")):
+            r = json.loads(l)
+            lent, opn = r.get("lent") or [], r.get("open") or []
+            if r.get("panic") or not set(lent) <= set(opn) or len(opn) > r.get("cap", 0) + len(set(lent)) or r.get("out") == "OErrClosed":
+                return True
+        return False
+    def fc_shrink(seqtxt):
+        c0, ops = seqtxt.split(" ; ", 1)[0], seqtxt.split(" ; ")[1:]
+        i, tries = 0, 0
+        while i < len(ops) and tries < 150:
+            cand = ops[:i] + ops[i + 1:]
+            tries += 1
+            if cand and fc_fails(c0 + " ; " + " ; ".join(cand)):
+                ops = cand
+            else:
+                i += 1
+        return c0 + " ; " + " ; ".join(ops)
+    seen = set()
+    for seqtxt, what in sorted(bad_oracle, key=lambda x: len(x[0])):
+        if seqtxt in seen or len(seen) >= 2:
+            continue
+        seen.add(seqtxt)
+        seqtxt = fc_shrink(seqtxt)
+        rp = C.save_replay(prop, "fc-%s.fcseq" % hashlib.sha1(seqtxt.encode()).hexdigest()[:10], "# C14 fails on the implementation: %s\n# replay: cd /verif && ./check C14 --replay <this file>\n%s\n" % (what, seqtxt))
+        viol.append(("file cache: " + what, rp, True))
+    if mism and not bad_oracle:
+        (pi, si), at = mism[0]
+        seqtxt = parts[pi][si]
+        rp = C.save_replay(prop, "fccorr-%s.fcseq" % hashlib.sha1(seqtxt.encode()).hexdigest()[:10],
+                           "# correspondence obligation broken: model coq/theories/FileCache.v (step true) and store/filecache disagree at observation %d of this sequence (%d of %d sequences disagree)\n"
+                           "# the protocol oracle (lent => open, descriptor bound, no Close error) found no failing sequence among %d\n%s\n" % (at, len(mism), len(terms), len(seqs), seqtxt))
+        viol.append(("correspondence: file-cache model and implementation disagree on %d of %d sequences" % (len(mism), len(terms)), rp, False))
+    return viol, {"evaluations": len(seqs), "distinct_nontrivial": len(nontriv), "observations": nobs, "exhaustive": exhaustive,
+                  "traces_validated_against_impl": len(terms) - len(mism), "correspondence_mismatches": len(mism), "oracle_failures": len(bad_oracle),
+                  "samples": [{"sequence": s} for s in seqs[:3]], "coq_replay_s": round(coq_s, 1)}
+
+CHECKS["C14"] = Spec(
+    prop_file="C14.v",
+    weights=None,
+    witnesses=["F7-filecache-untracked-handle", "F18-filecache-shrink-after-zero"],
+    tools=["witness", "fcdrive"],
+    rule="operation sequences on the real store/filecache with real files: Open of 4 names, Close of a held reference (protocol-obeying by construction), Remove, Clear, "
+         "SetCacheSize in 0..3, starting capacity 0..3, 4-60 operations (thorough: additionally ALL sequences of <= 5 operations over 9 operation kinds x capacities 0,1,2); after every operation: "
+         "result, which handles ever returned are open at the OS, Len, Cap compared with the model; oracle on the real trace: every lent handle open, descriptors <= capacity + distinct lent, "
+         "no Close error; non-trivial = a resize/remove/clear while a handle is lent after >= 3 operations; distinct by sequence text",
+    extra=_fc_check,
+)
 CHECKS["C13"] = Spec(
     prop_file="C13.v",
     weights=dict(put=40, get=4, remove=16, flush=12, atflush=4, pgc=9, pgcb=0, igc=2, reopen=4),
@@ -400,6 +529,8 @@ def run_check(prop, tier, seed, replay, t0):
     # ---------------- 4. histories
     rng = random.Random(seed * 1000003 + int(hashlib.sha1(prop.encode()).hexdigest()[:6], 16))
     n = spec.quick_n if tier == "quick" else spec.thorough_n
+    if spec.weights is None:
+        n = 0                    # no store histories for this property: its own driver runs in spec.extra
     texts = []
     corpus = os.path.join(C.VERIF, "corpus", prop)
     if os.path.isdir(corpus):
@@ -421,7 +552,7 @@ def run_check(prop, tier, seed, replay, t0):
         if getattr(spec, "tail", None) == "drain":
             t = gen.add_drain(rng, t)
         texts.append(t)
-    results, coq_s = run_histories(texts, wd, spec.keep, spec)
+    results, coq_s = (run_histories(texts, wd, spec.keep, spec) if texts else ({}, 0.0))
     opcount = collections.Counter()
     vlens = collections.Counter()
     nontriv = set()
@@ -500,6 +631,10 @@ def run_check(prop, tier, seed, replay, t0):
                non_ok_results=dict(errs), observations_compared=list(spec.keep), coq_replay_s=round(coq_s, 1))
     if extra_cov:
         cov["evaluations"] += extra_cov.pop("evaluations", 0)
+        cov["distinct_nontrivial"] += extra_cov.pop("distinct_nontrivial", 0)
+        cov["traces_validated_against_impl"] += extra_cov.pop("traces_validated_against_impl", 0)
+        cov["correspondence_mismatches"] += extra_cov.pop("correspondence_mismatches", 0)
+        cov["oracle_failures"] += extra_cov.pop("oracle_failures", 0)
         cov["samples"] += extra_cov.pop("samples", [])
         cov.update(extra_cov)
     C.write_evidence(prop, tier, seed, cov, time.time() - t0, len(violations),
@@ -508,6 +643,6 @@ def run_check(prop, tier, seed, replay, t0):
     for what, rp, has_input in violations:
         print("VIOLATION property=%s replay=%s %s%s" % (prop, rp, what.replace("\n", " ")[:300], "" if has_input else " no-failing-input-found"))
     if not violations:
-        print("OK property=%s tier=%s histories=%d nontrivial=%d witnesses=%d obligations=%d/%d wall=%.1fs" %
-              (prop, tier, len(results), len(nontriv), len(wres), discharged, obligations, time.time() - t0))
+        print("OK property=%s tier=%s evaluations=%d nontrivial=%d witnesses=%d obligations=%d/%d wall=%.1fs" %
+              (prop, tier, cov["evaluations"], cov["distinct_nontrivial"], len(wres), discharged, obligations, time.time() - t0))
     return 1 if violations else 0
